@@ -27,7 +27,9 @@ RunFails(o, r, exp) ==
                        got |-> IF "value" \in DOMAIN r THEN r.value ELSE U,
                        gotlog |-> IF "log" \in DOMAIN r THEN HostCalls(r.log) ELSE <<>>,
                        kf |-> KF_Run(prop, why, o, r)] IN
-  IF IsSkip(exp.v) THEN <<>>      \* outside the fragment the evaluator specifies: no verdict (C07/C08 still apply to it)
+  IF r.status = "panic" THEN <<F("C07", "panic while executing")>>     \* whatever the program means, stepping it must not panic
+  ELSE IF r.status = "compilepanic" THEN <<F("C03", "panic while compiling")>>
+  ELSE IF IsSkip(exp.v) THEN <<>>      \* outside the fragment the evaluator specifies: no verdict (C07/C08 still apply to it)
   ELSE IF r.status # "ok" THEN (IF HasSkip(exp.v) THEN <<>> ELSE <<F("C01", "not completed: " \o r.status)>>)
   ELSE (IF SameVal(exp.v, r.value) THEN <<>> ELSE <<F("C01", "value")>>)
     \o (IF r.dregs = 0 /\ r.dvals = 0 /\ r.dframes = 0 THEN <<>> ELSE <<F("C06", "depths not restored")>>)
